@@ -178,15 +178,20 @@ func unrollArrayWrite(fn *ssa.Function, call *ssa.Call) []footerItem {
 	data := call.Call.Args[2]
 	var arr *ssa.Alloc
 	var idx ssa.Value
+	var sliceOf *ssa.Slice
 	switch x := data.(type) {
 	case *ssa.Index: // range over a copy of the array value
 		if u, ok := x.X.(*ssa.UnOp); ok && u.Op == token.MUL {
 			arr, _ = u.X.(*ssa.Alloc)
 		}
 		idx = x.Index
-	case *ssa.UnOp: // *(&arr[i])
+	case *ssa.UnOp: // *(&arr[i]) or *(&slice[i]) with slice = arr[:] of a literal
 		if ia, ok := x.X.(*ssa.IndexAddr); ok && x.Op == token.MUL {
 			arr, _ = ia.X.(*ssa.Alloc)
+			if sl, isSl := ia.X.(*ssa.Slice); isSl && sl.Low == nil && sl.High == nil && sl.Max == nil {
+				arr, _ = sl.X.(*ssa.Alloc)
+				sliceOf = sl
+			}
 			idx = ia.Index
 		}
 	}
@@ -218,8 +223,19 @@ func unrollArrayWrite(fn *ssa.Function, call *ssa.Call) []footerItem {
 	if !ok || bo.Op != token.LSS || bo.X != idx {
 		return nil
 	}
-	if n, ok := constInt64(bo.Y); !ok || n != at.Len() {
-		return nil
+	if n, ok := constInt64(bo.Y); ok {
+		if n != at.Len() {
+			return nil
+		}
+	} else {
+		// len(slice) of the whole-array slice
+		lc, isCall := bo.Y.(*ssa.Call)
+		if !isCall || sliceOf == nil {
+			return nil
+		}
+		if bi, isB := lc.Call.Value.(*ssa.Builtin); !isB || bi.Name() != "len" || lc.Call.Args[0] != ssa.Value(sliceOf) {
+			return nil
+		}
 	}
 	// early exits fail
 	for blk := range loop.blocks {
@@ -255,6 +271,10 @@ func unrollArrayWrite(fn *ssa.Function, call *ssa.Call) []footerItem {
 				elems[k] = st.Val
 			}
 		case *ssa.UnOp, *ssa.DebugRef:
+		case *ssa.Slice:
+			if x != sliceOf {
+				return nil
+			}
 		default:
 			return nil
 		}
@@ -383,7 +403,23 @@ func r14Writer(c *RuleCtx) {
 			}
 		case *ssa.UnOp:
 			if sn, fld, base, ok := loadedField(x); ok && sn == "CountHashWriter" && fld == "crc" && crcWriter != nil && root(base) == crcWriter {
+				// the running CRC as it stands after every earlier write
 				role = "crc"
+				for _, pw := range writes {
+					if pw == w && !inLoop[w.Block()] {
+						break
+					}
+					if pw == w {
+						// this very write is the unrolled loop: the value was taken before the loop ran
+						role = "crc read too early"
+						break
+					}
+					pb := posBlock(pw)
+					after := pb.Dominates(x.Block()) && pb != x.Block() || (pb == x.Block() && !inLoop[pw.Block()] && instrIndex(pw) < instrIndex(x))
+					if !after || inLoop[x.Block()] {
+						role = "crc read too early"
+					}
+				}
 			}
 		case *ssa.Call:
 			if isCRCAccessor(x.Call.StaticCallee()) && crcWriter != nil && root(x.Call.Args[0]) == crcWriter {
